@@ -156,6 +156,9 @@ type codec struct {
 	nextJunk  uint64
 	blocks    map[uint64]*vblock
 	seedSigs  map[uint64][]byte // height -> canonical random seed signature of the proof of that height's block
+	goodSigs  map[string][]byte // member/height -> the last valid signature made for it
+	goodOver  map[string]string // ... and the bytes it covers
+	replaySigs bool             // an invalid signature is a replayed genuine one when there is one
 }
 
 func newCodec(kr *keyring) *codec {
@@ -371,8 +374,16 @@ func (c *codec) encRef(r aRef) *protocol.BlockRefBuilder {
 func (c *codec) encSig(s aSig, h uint64, content []byte) *protocol.SenderSignatureBuilder {
 	id := idBytes(s.Id)
 	var sig []byte
+	key := fmt.Sprintf("%d/%d", s.Id, h)
 	if s.Ok {
 		sig = c.kr.signConsensus(id, primitives.BlockHeight(h), content)
+		if c.goodSigs == nil {
+			c.goodSigs = map[string][]byte{}
+			c.goodOver = map[string]string{}
+		}
+		c.goodSigs[key], c.goodOver[key] = sig, string(content)
+	} else if g, ok := c.goodSigs[key]; ok && c.replaySigs && c.goodOver[key] != string(content) {
+		sig = g // a signature the member really made - over other bytes (the last ones it signed for this height)
 	} else {
 		x := sha256.Sum256(append([]byte("junk"), content...))
 		sig = x[:]
